@@ -95,14 +95,26 @@ def run(ctx):
     cdir = os.path.join(ctx.work, "cli")
     os.makedirs(cdir, exist_ok=True)
     sample = [i for i in ok_idx if res[i]["parse2"] and res[i]["idempotent"]]
-    sample = rnd.sample(sample, min(len(sample), 12 if ctx.quick else 80))
-    n_cli = 0
+    sample = rnd.sample(sample, min(len(sample), 16 if ctx.quick else 96))
+    # the file as it sits on disk: as generated, with CRLF line endings, without its final newline, with blank lines at the end
+    VARIANTS = [("as-is", lambda t: t), ("crlf", lambda t: t.replace("\n", "\r\n")), ("no-final-newline", lambda t: t.rstrip("\n")),
+                ("blank-lines-at-end", lambda t: t + "\n\n")]
+    sessions = []
     for k, i in enumerate(sample):
         name, src = items[i]
+        vname, fn = VARIANTS[k % len(VARIANTS)]
+        sessions.append((name + "@" + vname, fn(src)))
+    fouts = common.replay_batch([{"op": "fmt", "src": t} for _, t in sessions], timeout=600)
+    n_cli = 0
+    for k, ((name, text), fo) in enumerate(zip(sessions, fouts)):
+        fob = fo.get("obs", {})
+        if not fob.get("ok"):
+            continue        # the variant does not format (C10 / C08 material): no CLI session
+        want = fob["text"]
         path = os.path.join(cdir, f"f{k}.incn")
-        with open(path, "w", encoding="utf-8") as fh:
-            fh.write(src)
-        dirty = res[i]["fmt1"] != src
+        with open(path, "w", encoding="utf-8", newline="") as fh:
+            fh.write(text)
+        dirty = want != text
         events.append({"a": "file", "name": name, "state": "dirty" if dirty else "clean"})
 
         def invoke(args):
@@ -114,8 +126,9 @@ def run(ctx):
             rc, mod = invoke(args)
             n_cli += 1
             events.append({"a": a, "name": name, "exit": rc, "modified": mod})
-        if open(path, encoding="utf-8").read() != res[i]["fmt1"]:
-            ctx.fail("cli:fmt-writes-different-text", {"name": name}, "`incan fmt` wrote something else than format_source returns")
+        if open(path, "rb").read().decode("utf-8") != want:
+            ctx.fail("cli:fmt-writes-different-text", {"name": name}, "`incan fmt` wrote something else than format_source returns",
+                     tags=["variant:" + name.rsplit("@", 1)[1]])
     # ---------------------------------------------------------------- TLC validates everything recorded
     tpath = os.path.join(ctx.work, "format_trace.ndjson")
     with open(tpath, "w") as fh:
